@@ -9,14 +9,15 @@ pub struct GenOpts {
     pub mode: Option<u8>,
     pub objects: usize,
     pub timing_lines: usize,
+    pub integer_times: bool,
 }
 
 impl GenOpts {
     pub fn c02() -> Self {
-        GenOpts { chronological: true, hostile: false, mode: None, objects: 12, timing_lines: 8 }
+        GenOpts { chronological: true, hostile: false, mode: None, objects: 12, timing_lines: 8, integer_times: false }
     }
     pub fn hostile() -> Self {
-        GenOpts { chronological: false, hostile: true, mode: None, objects: 12, timing_lines: 8 }
+        GenOpts { chronological: false, hostile: true, mode: None, objects: 12, timing_lines: 8, integer_times: false }
     }
 }
 
@@ -167,7 +168,7 @@ pub fn gen_map(rng: &mut Rng, o: &GenOpts) -> String {
         }
         tl.push(l);
         if rng.chance(3, 4) {
-            t += (rng.below(8) as f64) * 333.25;
+            t += (rng.below(8) as f64) * if o.integer_times { 333.0 } else { 333.25 };
         }
     }
     if !o.chronological {
@@ -216,7 +217,7 @@ pub fn gen_map(rng: &mut Rng, o: &GenOpts) -> String {
         };
         ol.push(line);
         if rng.chance(5, 6) {
-            ot += (rng.below(12) as f64) * 125.5;
+            ot += (rng.below(12) as f64) * if o.integer_times { 125.0 } else { 125.5 };
         }
     }
     if !o.chronological {
